@@ -54,7 +54,12 @@ def check_single(case, ctx):
             if any(sum(1 for k in kv_[p_ + 1:n_] if k == x) > p_ for x in set(kv_[p_ + 1:n_])) or not (kv_[p_] < kv_[n_]):
                 raise Skip("rounding the knots to %d decimals merged knots beyond the degree" % d["precision"])
     else:
-        obj = build.make(d, mode=case["mode"])
+        handed = {}
+        obj = build.make(d, mode=case["mode"], inputs=handed)
+        if len(d["P"]) % 3 == 0:
+            # the caller re-uses (overwrites) the lists it handed to the setters; the shape is still the one that was defined
+            build.scribble(handed, knots=bool(d.get("normalize", True)))
+            ctx.label("callers-lists-overwritten")
     R = build.exact_from(d, obj)
     allkinds = []
     plist = []
